@@ -36,6 +36,11 @@ def run(ctx):
     from . import r_rank as RR
     RR.search_chain_shape(ctx, "R06.a", parts=("complete", "score", "filter"))
     RC20.buffer_rules(ctx, None, None, "R20.f")
-    return info("Necessary constants for split/joined spellings at the L=3 worst case: length gate accepts 1-3/4, "
+    from . import r_word as RW
+    RW.dist_formula(ctx, "R14.j")
+    RW.word_field_from_lang(ctx, "R14.j", "set_stem", "stem", "Lang::stem")
+    RR.hit_from_record(ctx, "R14.j")
+    return info("R14.j: Word::dist is start(later) - end(earlier) in both orders (region-wise), the stem is computed from the word's own characters, a hit carries the whole title. "
+                "Necessary constants for split/joined spellings at the L=3 worst case: length gate accepts 1-3/4, "
                 "cost(NotAlpha)/4 passes the DL gate, Jaccard gate accepts 1/2, and characters without a language "
                 "class that are not alphabetic get the NotAlpha class (so the separator is charged the NotAlpha cost); R14.e: join attempts are skipped only when the other word is strictly shorter than first word + gap; R14.f/g: linear forms of the split halves and of the joined word equal the derived formulas.")
